@@ -448,7 +448,7 @@ def main(rep: Report, replay: dict | None) -> None:
                               "max_classes": max(t["nc"] for t in recorded),
                               "rejected": sum(1 for v in verdicts if v["verdict"] != "ok")}
 
-    w0 = walks[0]
+    w0 = next((w for w in walks if len({e["op"]["k"] + e["op"]["res"] for e in w[:8]}) >= 3), walks[0])
     rep.sample({"walk": [{k: v for k, v in e["op"].items() if k != "exp"} for e in w0[:6]],
                 "family": w0[0]["from"]["fam"]})
     rep.sample({"history": _scenario(recorded[0], 0)["ops"][:6], "family": recorded[0]["fam"],
